@@ -96,12 +96,11 @@ fn followup(v: &ReplicatedValue) -> String {
             log += &format!("clock{}", c.time);
         }
         CrdtValue::GCounter(g) => {
-            for r in reps { g.increment_by(r, 1); }
-            log += &format!("value{}", g.value());
+            for r in reps { if g.get_replica_count(&r) < u64::MAX - 8 { g.increment_by(r, 1); } }
         }
         CrdtValue::PNCounter(p) => {
-            for r in reps { p.increment_by(r, 2); p.decrement_by(r, 1); }
-            log += &format!("value{}", p.value());
+            let big = rv_canon(v).contains("1844674407370955"); // counts near u64::MAX: adding would overflow
+            if !big { for r in reps { p.increment_by(r, 2); p.decrement_by(r, 1); } }
         }
         CrdtValue::GSet(g) => { log += &format!("new{}", g.add("probe".to_string())); }
         CrdtValue::ORSet(o) => {
@@ -132,7 +131,7 @@ fn followup(v: &ReplicatedValue) -> String {
         }
     }
     if let Some(vc) = w.vector_clock.as_mut() {
-        for r in reps { vc.increment(r); }
+        for r in reps { if vc.get(&r) < u64::MAX - 8 { vc.increment(r); } }
     }
     let merged = v.merge(v);
     format!("{}|{}|self-merge:{}", log, rv_canon(&w), rv_canon(&merged))
@@ -140,6 +139,40 @@ fn followup(v: &ReplicatedValue) -> String {
 /// the decoded update equals the original: every field (key, value, source) and its behaviour
 fn delta_canon(d: &ReplicationDelta) -> String {
     format!("{}|{}|{}|then:{}", hex(d.key.as_bytes()), rv_canon(&d.value), d.source_replica.0, followup(&d.value))
+}
+/// Values at the ends of the ranges: counts / expiry / stamps / replica ids at u64::MAX and 2^63,
+/// ids equal mod 64 and mod 2^32, empty collections, None vs empty string, factor 0 / 255.
+fn extreme_value(rng: &mut Rng) -> ReplicatedValue {
+    let ids = [ReplicaId(u64::MAX), ReplicaId(1 << 63), ReplicaId(65), ReplicaId(1), ReplicaId((1 << 32) + 1), ReplicaId(0)];
+    let rid = ids[rng.gen_range(0..ids.len())];
+    let mut v = ReplicatedValue::new(rid);
+    v.timestamp = LamportClock { time: [u64::MAX, 1 << 63, (1 << 63) - 1, 0][rng.gen_range(0..4)], replica_id: rid };
+    v.expiry_ms = [None, Some(0), Some(u64::MAX), Some(1 << 63)][rng.gen_range(0..4)];
+    v.replication_factor = [None, Some(0), Some(255), Some(1)][rng.gen_range(0..4)];
+    match rng.gen_range(0..7) {
+        0 => { let mut g = GCounter::new(); g.increment_by(rid, u64::MAX); g.increment_by(ReplicaId(1), 0); v.crdt = CrdtValue::GCounter(g); }
+        1 => { let mut p = PNCounter::new(); p.increment_by(rid, u64::MAX); p.decrement_by(ReplicaId(65), u64::MAX); v.crdt = CrdtValue::PNCounter(p); }
+        2 => { v.crdt = CrdtValue::ORSet(ORSet::new()); }
+        3 => { v.crdt = CrdtValue::GSet(GSet::new()); }
+        4 => { v.crdt = CrdtValue::new_hash(); }
+        5 => {
+            // tags of replicas whose ids are equal mod 64 / mod 2^32, sequences far apart
+            let mut o: ORSet<String> = ORSet::new();
+            for r in [ReplicaId(1), ReplicaId(65), ReplicaId((1 << 32) + 1), ReplicaId(u64::MAX)] { o.add(String::new(), r); o.add("x".to_string(), r); }
+            o.remove(&"x".to_string());
+            v.crdt = CrdtValue::ORSet(o);
+        }
+        _ => {
+            // LWW: Some(empty) and None are different values
+            let l = if rng.gen_bool(0.5) { redis_sim::replication::lattice::LwwRegister::with_value(SDS::new(vec![]), v.timestamp) } else { redis_sim::replication::lattice::LwwRegister::new(rid) };
+            v.crdt = CrdtValue::Lww(l);
+        }
+    }
+    if rng.gen_bool(0.3) {
+        let vc: VectorClock = serde_json::from_value(json!({"clocks": {"18446744073709551615": u64::MAX, "65": 1u64 << 63, "1": 1}})).unwrap();
+        v.vector_clock = Some(vc);
+    }
+    v
 }
 fn rv_full(v: &ReplicatedValue) -> String {
     format!("{}|then:{}", rv_canon(v), followup(v))
@@ -195,7 +228,8 @@ const FIELDS: [&str; 4] = ["f1", "f2", "\u{e9}", "\u{0}\u{ff}"];
 const ELEMS: [&str; 4] = ["x", "y", "", "\u{444}\u{0}"];
 const KEY: &str = "k";
 fn gen_bytes(rng: &mut Rng) -> Vec<u8> {
-    let n = match rng.gen_range(0..12) { 0 => 0, 1 => 1, 2 => 300, 3 => 64, _ => rng.gen_range(1..9) };
+    // 22/23/24: SDS small-string boundary (SSO_MAX_LEN = 23)
+    let n = match rng.gen_range(0..14) { 0 => 0, 1 => 1, 2 => 300, 3 => 64, 4 => 22, 5 => 23, 6 => 24, _ => rng.gen_range(1..9) };
     (0..n).map(|_| if rng.gen_bool(0.3) { [0u8, 255, 10, 13, b'G', b'R'][rng.gen_range(0..6)] } else { rng.gen() }).collect()
 }
 fn local_op(rng: &mut Rng, s: &mut ShardReplicaState, kind: u32) {
@@ -545,7 +579,7 @@ fn main() {
     let n_patch = args.get("patch", 8) as usize;
     let adversarial_every = args.get("adversarial", 8);
     let huge = args.get("huge", 0) == 1;
-    let large_every = args.get("large", 24);
+    let large_every = args.get("large", 8);
     let model_large = args.get("modellarge", 1) == 1;
     out.nontrivial_rule = "a case = a batch of deltas (values of every CRDT kind produced by three replicas exchanging updates; binary, empty and 300-byte strings; unusual keys) encoded by the real WalEntry / SegmentWriter / CheckpointWriter / GossipMessage; probes = every truncation length of every image, every bit of the fixed header/footer regions, sampled flips and patches elsewhere; every 8th case additionally holds a batch whose payload imitates a segment footer; non-trivial = batch of >= 2 deltas; distinct by canonical text of the batch".into();
     let range: Vec<u64> = match args.only { Some(i) => vec![i], None => (0..args.n).collect() };
@@ -563,6 +597,9 @@ fn main() {
         }
         // one value per case whose history leaves gaps (first, so that every encoding sees it)
         deltas.insert(0, ReplicationDelta::new("gap".to_string(), gap_value(&mut rng), ReplicaId(rng.gen_range(1..4))));
+        // and one at the ends of the value ranges; its key is empty / very long now and then
+        let xkey = match rng.gen_range(0..4) { 0 => String::new(), 1 => "\u{10ffff}".repeat(70), _ => "x".to_string() };
+        deltas.insert(1, ReplicationDelta::new(xkey, extreme_value(&mut rng), [ReplicaId(u64::MAX), ReplicaId(0), ReplicaId(65)][rng.gen_range(0..3)]));
         let adversarial = adversarial_every > 0 && i % adversarial_every == adversarial_every - 1;
         let adv_start = deltas.len();
         if adversarial {
@@ -583,6 +620,9 @@ fn main() {
             let e = WalEntry::from_delta(d, ts).unwrap();
             let img = e.encode();
             out.impl_checks += 1;
+            if e.disk_size() != img.len() || !e.validate() {
+                viol(&mut out, &mut seen, i, "WalEntry::disk_size / validate disagree with the encoded entry", json!({"disk_size": e.disk_size(), "encoded": img.len(), "valid": e.validate()}));
+            }
             match WalEntry::decode(&img) {
                 Some((e2, used)) if used == img.len() && e2.timestamp == ts && e2.to_delta().map(|x| delta_canon(&x) == canons[j]).unwrap_or(false) => {}
                 _ => viol(&mut out, &mut seen, i, "WAL entry does not round-trip", json!({"delta": canons[j], "ts": ts})),
@@ -627,9 +667,26 @@ fn main() {
         for batch in &batches {
             let mut w = SegmentWriter::new(Compression::None);
             for &j in batch { w.write_delta(&deltas[j]).unwrap(); }
+            let (est, wcount, wempty) = (w.estimated_size(), w.record_count(), w.is_empty());
             let img = w.finish().unwrap();
             let reader = SegmentReader::open(&img).unwrap();
             let (cnt, mn, mx) = (reader.header().record_count, reader.header().min_timestamp, reader.header().max_timestamp);
+            {
+                // the other public views of the same segment: sizes, counts, footer, and the iterator driven by
+                // hand (as compaction.rs does) instead of through read_all; bounded, so that an iterator
+                // that never ends is a failure and not a hang
+                out.impl_checks += 1;
+                let sg = reader.segment();
+                let it: Vec<u64> = reader.deltas().map(|d| d.take(batch.len() + 8).map(|r| r.map(|d| find(&d)).unwrap_or(999998)).collect()).unwrap_or_default();
+                let want: Vec<u64> = batch.iter().map(|&j| j as u64).collect();
+                let f = reader.footer();
+                if est != img.len() || wcount != batch.len() || wempty || sg.size_bytes() != img.len() || sg.record_count() as usize != batch.len()
+                    || sg.min_timestamp() != mn || sg.max_timestamp() != mx || it != want
+                    || f.uncompressed_size as usize != img.len() - 64 || f.compressed_size as usize != img.len() - 64 {
+                    viol(&mut out, &mut seen, i, "segment accessors (estimated_size, size_bytes, record_count, footer sizes, deltas() iteration) disagree with the written segment",
+                         json!({"estimated": est, "len": img.len(), "writer_count": wcount, "iterated": it, "written": want}));
+                }
+            }
             let mut probes = Vec::new();
             let hf = [(0usize, 40usize), (img.len() - 24, img.len())];
             let regions: &[(usize, usize)] = if i % 2 == 0 { &hf } else { &[] };
@@ -690,7 +747,53 @@ fn main() {
             let state_canon: BTreeMap<String, String> = state.iter().map(|(k, v)| (k.clone(), rv_full(v))).collect();
             let (ts_ms, last) = (rng.gen_range(0..u64::MAX), [0u64, 1, 7, u64::MAX][rng.gen_range(0..4)]);
             let keys = state.len() as u64;
+            {
+                // the same state through CheckpointManager (create_checkpoint -> object store -> load_checkpoint),
+                // also with the stored object damaged
+                use redis_sim::streaming::{CheckpointConfig, CheckpointManager, InMemoryObjectStore, ManifestManager, ObjectStore};
+                let store = std::sync::Arc::new(InMemoryObjectStore::new());
+                let mgr = CheckpointManager::new(store.clone(), "p".to_string(), ManifestManager::new((*store).clone(), "p"), CheckpointConfig::test());
+                let rt = tokio::runtime::Builder::new_current_thread().enable_all().build().unwrap();
+                out.impl_checks += 1;
+                out.count("checkpoint-manager:roundtrip");
+                let canon_of = |d: &redis_sim::streaming::CheckpointData| -> BTreeMap<String, String> { d.state.iter().map(|(k, v)| (k.clone(), rv_full(v))).collect() };
+                let r = rt.block_on(async {
+                    let r = mgr.create_checkpoint(state.clone(), last).await?;
+                    let d = mgr.load_checkpoint(&r.key).await?;
+                    Ok::<_, CheckpointError>((r, d))
+                });
+                match r {
+                    Err(e) => viol(&mut out, &mut seen, i, "checkpoint does not round-trip through CheckpointManager", json!({"err": e.to_string()})),
+                    Ok((r, d)) => {
+                        if canon_of(&d) != state_canon || r.key_count != keys || r.last_segment_id != last {
+                            viol(&mut out, &mut seen, i, "checkpoint does not round-trip through CheckpointManager", json!({"key": r.key}));
+                        }
+                        let obj = rt.block_on(store.get(&r.key)).unwrap().to_vec();
+                        for q in 0..8 {
+                            let mut bad = obj.clone();
+                            match q % 4 {
+                                0 => { let p = rng.gen_range(0..bad.len()); bad[p] ^= 1 << rng.gen_range(0..8); }
+                                1 => { let p = rng.gen_range(0..bad.len()); for x in bad.iter_mut().skip(p).take(16) { *x = 0; } }
+                                2 => { bad.truncate(rng.gen_range(0..bad.len())); }
+                                _ => { let l = bad.len(); for x in bad[l - 16..l - 12].iter_mut() { *x = 0; } let p = rng.gen_range(52..l - 16).min(l - 17); if l > 69 { bad[p] ^= 1; } }
+                            }
+                            if bad == obj { continue; }
+                            rt.block_on(store.put(&r.key, &bad)).unwrap();
+                            out.impl_checks += 1;
+                            out.count("checkpoint-manager:damaged-object");
+                            match catch_unwind(AssertUnwindSafe(|| rt.block_on(mgr.load_checkpoint(&r.key)))) {
+                                Err(_) => viol(&mut out, &mut seen, i, "the implementation panicked on CheckpointManager::load_checkpoint of a damaged object", json!({"object": hex(&bad)})),
+                                Ok(Err(_)) => {}
+                                Ok(Ok(d)) => { if canon_of(&d) != state_canon { viol(&mut out, &mut seen, i, "damaged checkpoint object decoded into different data by CheckpointManager::load_checkpoint", json!({"object": hex(&bad), "original": hex(&obj)})); } }
+                            }
+                        }
+                    }
+                }
+            }
             let img = CheckpointWriter::new(Compression::None).write(state, ts_ms, last).unwrap();
+            if CheckpointReader::open(&img).map(|r| r.is_compressed()).unwrap_or(true) {
+                viol(&mut out, &mut seen, i, "CheckpointReader::is_compressed is true for an uncompressed checkpoint", json!({}));
+            }
             let data = img[52..img.len() - 16].to_vec();
             let mut probes = Vec::new();
             let hf = [(0usize, 52usize), (img.len() - 16, img.len())];
@@ -771,7 +874,12 @@ fn main() {
                     }
                 };
                 match GossipMessage::deserialize(&bytes) {
-                    Ok(back) if canon(&back) == canon(msg) => {}
+                    Ok(back) if canon(&back) == canon(msg) => {
+                        let dl = |m: &GossipMessage| m.clone().into_deltas().map(|v| v.iter().map(delta_canon).collect::<Vec<_>>());
+                        if back.source_replica() != msg.source_replica() || back.is_delta_message() != msg.is_delta_message() || dl(&back) != dl(msg) {
+                            viol(&mut out, &mut seen, i, "gossip message accessors differ after the round trip", json!({"msg": mi}));
+                        }
+                    }
                     Ok(_) => viol(&mut out, &mut seen, i, "gossip message decoded into different data", json!({"msg": mi})),
                     Err(e) => viol(&mut out, &mut seen, i, "gossip message does not round-trip", json!({"msg": mi, "err": e.to_string()})),
                 }
@@ -899,12 +1007,16 @@ fn main() {
         // ---- 6. large images: payload lengths k*65536 + delta in every encoding, damage concentrated
         //         in the last 64 KiB, right before the footer and around 64 KiB / 4 KiB boundaries
         if large_every > 0 && i % large_every == 5 % large_every {
-            let pat = (i / large_every) % 4;
-            let (k, many) = match pat { 0 => (1usize, false), 1 => (2, false), 2 => (3, true), _ => (16, false) };
-            let delta_len: i64 = match rng.gen_range(0..5) { 0 => 0, 1 => 1, 2 => -1, 3 => rng.gen_range(2..400), _ => -rng.gen_range(2..400) };
-            let target = (k as i64 * 65536 + delta_len) as usize;
-            let m = if many { 24 } else { 1 };
-            out.count(&format!("large:{}x64KiB{}{}", k, if delta_len == 0 { "" } else if delta_len > 0 { "+" } else { "-" }, if many { ":many-values" } else { ":one-value" }));
+            // (unit, k, number of values): lengths k*unit + d; with many values the count itself sits on a boundary
+            let pats: [(usize, usize, usize); 12] = [(65536, 1, 1), (65536, 2, 1), (65536, 3, 24), (65536, 16, 1), (4096, 1, 1), (256, 130, 255),
+                                                     (8192, 1, 1), (512, 70, 256), (4096, 3, 1), (1024, 40, 257), (65536, 1, 64), (8192, 2, 63)];
+            let pat = ((i / large_every) % 12) as usize;
+            let (unit, mut k, mut m) = pats[pat];
+            if huge && pat == 5 && (i / large_every / 12) % 4 == 0 { k = 0x8000; m = [65535, 65536, 65537][((i / large_every / 12 / 4) % 3) as usize]; } // 10^5-scale record counts (thorough)
+            let many = m > 1;
+            let delta_len: i64 = match rng.gen_range(0..5) { 0 => 0, 1 => 1, 2 => -1, 3 => rng.gen_range(2..200), _ => -rng.gen_range(2..200) };
+            let target = (k as i64 * unit as i64 + delta_len) as usize;
+            out.count(&format!("large:{}x{}{}:{}-values", k, unit, if delta_len == 0 { "" } else if delta_len > 0 { "+" } else { "-" }, m));
             let mk = |sizes: &[usize]| -> Vec<ReplicationDelta> {
                 sizes.iter().enumerate().map(|(j, &sz)| {
                     let val: Vec<u8> = (0..sz).map(|x| ((x as u32).wrapping_mul(2654435761) >> 13) as u8 ^ j as u8).collect();
@@ -992,7 +1104,7 @@ fn main() {
                     }
                 }
                 // the ~64 KiB image is also judged by the model (writer bytes incl. the checksum, and the probes)
-                if k == 1 && !many && model_large {
+                if k == 1 && unit == 65536 && !many && model_large {
                     chk_t.push(format!("CK {} {} {} {} {} {}", keys, ts_ms, last, chex_long(&img[52..img.len() - 16]), chex_long(&img), clist(model_probes.iter(), |p| p.clone())));
                     out.count("large-checkpoint:model-compared");
                 }
